@@ -305,7 +305,7 @@ class PrintWorld(object):
                 if fcls == IN:
                     self.fail("C01", "into", "forwarded %r moves the tool to (%.6f, %.6f) inside a region"
                               % (wc, F.pos[0], F.pos[1]))
-                if F.last_arc is not None and self.regions:
+                if F.last_arc is not None and self.regions and not self._arc_sweep_fragile(F):
                     pts, spacing = arc_points(F.last_arc)
                     if arc_class(self.regions, pts, spacing, F.unit) == IN:
                         self.fail("C01", "arc", "forwarded arc %r passes deep through a region" % (wc,))
@@ -451,6 +451,9 @@ class PrintWorld(object):
                 self.stats["probe:border_hit_exact"] += 1
         if not is_arc:
             return end_cls
+        if self._arc_sweep_fragile(U):
+            self.stats["probe:arc_sweep_fragile"] += 1
+            return AMBIG
         pts, spacing = arc_points(U.last_arc)
         a_cls = arc_class(self.regions, pts, spacing, U.unit)
         if a_cls == IN or end_cls == IN:
@@ -458,6 +461,17 @@ class PrintWorld(object):
         if a_cls == OUT and end_cls == OUT:
             return OUT
         return AMBIG
+
+    @staticmethod
+    def _arc_sweep_fragile(printer):
+        """An arc whose end point (nearly) coincides with its start is read as a full circle or as no travel
+        at all depending on the last bit of the angle; unless start == end exactly in an exact frame the two
+        readings cannot be told apart, by the filter or by a firmware."""
+        (s, c, e, cw, ang, radius) = printer.last_arc
+        near = abs(ang) < 1e-4 or abs(abs(ang) - 2 * math.pi) < 1e-4
+        if not near:
+            return False
+        return not (s[0] == e[0] and s[1] == e[1] and printer.exact[0] and printer.exact[1])
 
     def _check_c07(self, wc):
         if wc in self.enter_lines or wc in self.exit_lines:
@@ -674,6 +688,9 @@ class PrintWorld(object):
             getattr(self.bus, op["do"] + "_head")()
             self.stats["fault:evt_" + op["do"]] += 1
         elif k == "settings":
+            if op.get("needs_no_episode") and (self.episode or self.plugin.state.excluding):
+                self.stats["skipped_needs_no_episode"] += 1
+                return
             for key, v in op["set"].items():
                 self._store_setting(key, v)
             self.bus.fire(Events.SETTINGS_UPDATED)
@@ -732,7 +749,7 @@ class PrintWorld(object):
             self.zneed = None
             if self.tracking() and self.F.homed():
                 self._check_sync("C14", "resync", "disable during an episode")
-                if abs(self.F.E - self.U.E) > self._etol() + 1e-9 * abs(self.U.E):
+                if self.U.abs_e and abs(self.F.E - self.U.E) > self._etol() + 1e-9 * abs(self.U.E):
                     self.fail("C14", "resync_e", "after disable during an episode the printer's E is %.6f, "
                               "the file assumes %.6f" % (self.F.E, self.U.E))
 
@@ -794,7 +811,7 @@ class PrintWorld(object):
                 if abs(Fc.pos[i] - self.U.pos[i]) > 1e-6 + 1e-9 * abs(self.U.pos[i]):
                     self.fail("C15", "resync", "executing the afterPrintDone prefix %r leaves the printer at "
                               "%s=%.6f, the file ended at %.6f" % (prefix, l, Fc.pos[i], self.U.pos[i]))
-            if abs(Fc.E - self.U.E) > self._etol() + 1e-9 * abs(self.U.E):
+            if self.U.abs_e and abs(Fc.E - self.U.E) > self._etol() + 1e-9 * abs(self.U.E):
                 self.fail("C15", "resync_e", "executing the afterPrintDone prefix %r leaves E=%.6f, the file "
                           "ended at %.6f" % (prefix, Fc.E, self.U.E))
             if self.plugin.state.excluding:
